@@ -257,13 +257,29 @@ def member_accesses(f):
     for e in svparse.module_exprs(m): svparse.walk_exprs(e, visit)
   return out
 
+def nested_ifc_undeclared(f):
+  """Yosys backend, arrays of interfaces nested in arrays of interfaces: the module declares bank__lane__0__msg [0:1] ... but the
+  update blocks use bank__lane__msg[i][j], which is not declared anywhere"""
+  out = set()
+  for m in f.modules:
+    declared = {pn for _, (pn, t, dims) in m['ports']} | {n for (n, t, dims) in m['decls']} | {p[0] for p, _ in m['params']}
+    squashed = {re.sub(r'__\d+(?=__)', '', n) for n in declared if re.search(r'__\d+__', n)}
+    def visit(e):
+      if e[0] == 'id' and e[1] not in declared and e[1] in squashed: out.add(e[1])
+    for e in svparse.module_exprs(m): svparse.walk_exprs(e, visit)
+  return out
+
 def varnames(txt):
   return set(re.findall(r'[A-Za-z_][A-Za-z_0-9$.]*', re.sub(r'K(Assign|Block|Input|Inst)\b', ' ', txt)))
 
 def class_key(r, pid, backend, symptom, w):
   """stable key for a symptom: by design for the fixed design sets, by a signature of the emitted text for random designs"""
   d = r.d
+  if symptom in ('no-fixpoint', 'mismatch') and sv.wrapping_loops(r.f):
+    return f'{pid}:for-negative-step:unsigned-counter-wraps'
   if backend == 'yosys':
+    if r.w0.get('wellformed') is False and nested_ifc_undeclared(r.f):
+      return f'{pid}:not-wellformed:nested-interface-array-undeclared'
     forms = struct_forms(r.f)
     if symptom == 'multi-driver' and varnames(w.get('collisions', '')) & forms: return f'{pid}:struct-form:multi-driver'
     if symptom == 'undriven':
@@ -309,7 +325,9 @@ def report_bad(ctx, r, pid, backend):
     else:
       symptoms.append(('undriven', f'a declared variable has a bit without any driver: {w["undriven"][:300]}', {'undriven': w['undriven'], 'emitted_text': r.text[:5000]}))
   if w['kind'] == 'nofixpoint':
-    symptoms.append(('no-fixpoint', f'the emitted module did not settle (cycle {w["cycle"]}, phase {w["phase"]})', {'emitted_text': r.text[:5000]}))
+    wl = sv.wrapping_loops(r.f)
+    symptoms.append(('no-fixpoint', (f'downward for-loop on an `int unsigned` counter passes below zero and wraps instead of stopping (module, counter, start, bound, step) = {wl[:3]}; ' if wl else '') +
+                     f'the emitted module did not settle (cycle {w["cycle"]}, phase {w["phase"]})', {'emitted_text': r.text[:5000], 'emitted_lines': emitted_lines(r.text, 'for (', 6)}))
   if w['kind'] == 'mismatch':
     cur, curf, note = w, r.f, None
     # 1. constants
@@ -349,7 +367,7 @@ def report_bad(ctx, r, pid, backend):
     ctx.violation(key, f'{d.name}' + (f' [{tag}]' if tag else '') + ': ' + '; '.join(m for _, m, _ in symptoms), rep)
     return
   for sy, msg, extra in symptoms:
-    ctx.violation(class_key(r, pid, backend, sy, w), f'{d.name}: {msg}', dict(base, **extra), found_input=(sy != 'no-fixpoint'))
+    ctx.violation(class_key(r, pid, backend, sy, w), f'{d.name}: {msg}', dict(base, **extra), found_input=(sy != 'no-fixpoint' or bool(sv.wrapping_loops(r.f))))
 
 def run_backend(ctx, pid, backend, designs, ncyc, sim_cache, tagp=''):
   results = []
